@@ -871,7 +871,9 @@ func (s *Service) ProcessRequest(ctx *core.Context, m map[string]interface{}, ou
 
 		ctx.LogAccumulatorLevel = core.EVERYTHING
 		// ToDo: Support number of steps to take.
-		err = s.System.RetryEventWork(ctx, location, &fr)
+		if err = s.System.RetryEventWork(ctx, location, &fr); err != nil {
+			return nil, err
+		}
 		js, err := json.Marshal(fr)
 		if err != nil {
 			return nil, err
